@@ -284,7 +284,15 @@ def oracle(case, r):
                     want = bool(want)
                 got = dec(res['v']) if isinstance(res, dict) and 'v' in res else res
                 typ = {'int': int, 'uint': int, 'float': float, 'bool': bool}.get(dt)
-                if got != want or (typ is not None and type(got) is not typ):
+                # "reads back the last value written": the value itself, not merely one that compares equal (True is not 1,
+                # -0.0 is not 0.0, 1.0 is not 1): object slots and float slots are compared through the canonical encoding
+                same = True
+                if isinstance(res, dict) and 'v' in res:
+                    if dt == 'obj':
+                        same = enc(got) == enc(want)
+                    elif dt == 'float' and isinstance(want, (int, float)) and not isinstance(want, bool):
+                        same = enc(got) == enc(float(want))       # "with the declared type": an int written reads back as that float
+                if got != want or not same or (typ is not None and type(got) is not typ):
                     return 'get(%s) returned %r, the last value written to that index is %r (declared type %s)' % (op[1], got, want, dt)
         elif name == 'is_set':
             if i in slots and res != (slots[i][0] == 'set'):
